@@ -1,8 +1,8 @@
 #!/bin/sh
-# usage: eval_seed.sh <PROP> <worktree> <mN> [runs]
+# usage: eval_seed.sh <PROP> <worktree> <mN> [runs] [name under seeded/, default mN]
 # Confirms a seeded change (demo fails with it, passes without), runs the property's check against it,
 # stores it under /verif/seeded/<PROP>-<mN>/ with the verdict.
-P="$1"; W="$2"; M="$3"; RUNS="${4:-}"
+P="$1"; W="$2"; M="$3"; RUNS="${4:-}"; NAME="${5:-$M}"
 D="$W/out/$M"
 cd "$W" || exit 2
 git checkout -q -- . ; git checkout -q --detach $(git -C /repo rev-parse HEAD)
@@ -17,10 +17,10 @@ VERIF_REPO="$W" ./check $P $R > /tmp/seed_check.log 2>&1; CC=$?
 grep -v condarc /tmp/seed_check.log | grep "VIOLATION\|rule=\|runs=" | cut -c1-300 | head -6
 echo "check exit: $CC"
 cd "$W" && git checkout -q -- .
-mkdir -p /verif/seeded/$P-$M
-cp $D/patch.diff $D/meta.json /verif/seeded/$P-$M/ 2>/dev/null
-cp $DEMO /verif/seeded/$P-$M/
-python3 - "$P" "$M" "$C0" "$C1" "$CC" <<'PY'
+mkdir -p /verif/seeded/$P-$NAME
+cp $D/patch.diff $D/meta.json /verif/seeded/$P-$NAME/ 2>/dev/null
+cp $DEMO /verif/seeded/$P-$NAME/
+python3 - "$P" "$NAME" "$C0" "$C1" "$CC" <<'PY'
 import json,sys,re
 p,m,c0,c1,cc=sys.argv[1:6]
 d="/verif/seeded/%s-%s/"%(p,m)
